@@ -349,6 +349,109 @@ def _task_slots_special(_):
     return res
 
 
+PROBES = ['', 'foo', '/a//b', '/a b', '/a/', 'a', 'a..b', '.a', '1a.b',
+          'a.b-c', '/\u00e9', 'M.N', ':1.', '/ok', 'a.b', 'Member', ':1.5']
+
+
+def _failing_operations():
+    """(name, callable): things an application gets wrong and the library
+    reports; each leaves the rules for names exactly as they were"""
+    from txdbus import objects as O, interface as I, message as M, marshal
+    from mcx import fakes
+    ops = []
+
+    def with_object(fn):
+        def run():
+            cw = fakes.ClientWorld()
+            try:
+                ifc = I.DBusInterface(
+                    'org.ex.Aft', I.Signal('Sig', 'u'),
+                    I.Signal('PathSig', 'o'),
+                    I.Property('Level', 'u', writeable=True),
+                    noRegister=True)
+
+                class Obj(O.DBusObject):
+                    dbusInterfaces = [ifc]
+                    level = O.DBusProperty('Level')
+                o = Obj('/aft')
+                o.level = 1
+                cw.conn.exportObject(o)
+                cw.sent()
+                fn(o, cw)
+            finally:
+                cw.close()
+        return run
+    ops.append(('signal with an argument of the wrong type',
+                with_object(lambda o, cw: o.emitSignal('Sig', 'not-a-u'))))
+    ops.append(('signal with an invalid path argument',
+                with_object(lambda o, cw: o.emitSignal('PathSig', 'no/p'))))
+    ops.append(('None assigned to a notifying property',
+                with_object(lambda o, cw: setattr(o, 'level', None))))
+    ops.append(('signal with too few arguments',
+                with_object(lambda o, cw: o.emitSignal('Sig'))))
+    ops.append(('unknown signal',
+                with_object(lambda o, cw: o.emitSignal('NoSuch', 1))))
+    ops.append(('call with an unencodable argument',
+                with_object(lambda o, cw: cw.conn.callRemote(
+                    '/x', 'M', signature='u', body=['s']))))
+    ops.append(('message with an invalid path',
+                lambda: M.MethodCallMessage('bad path', 'M')))
+    ops.append(('message with an invalid member',
+                lambda: M.SignalMessage('/p', 'bad.member', 'a.b')))
+    ops.append(('marshal of an invalid object path',
+                lambda: marshal.marshal('o', ['nope'])))
+    ops.append(('marshal of an invalid signature value',
+                lambda: marshal.marshal('g', ['(('])))
+    ops.append(('unmarshal of truncated bytes',
+                lambda: marshal.unmarshal('o', b'\x05\0\0\0/a')))
+    return ops
+
+
+def _task_aftermath(_):
+    """after each of a list of operations that fail (and are reported), the
+    validators and the constructors judge a list of names as before"""
+    from txdbus.error import MarshallingError
+    from txdbus import marshal
+    from mcx import fakes
+    fakes.reset_process_state()
+    res = core.Result()
+    vals = _validators()
+    slots = _slots()
+
+    def probe(tag):
+        r0 = core.Result()
+        for s in PROBES:
+            _check_string(r0, s, vals, MarshallingError)
+            for cls, slot, vname, build in slots:
+                _check_slot(r0, cls, slot, vname, build, s)
+            if not grammar.valid_object_path(s):
+                try:
+                    marshal.marshal('o', [s])
+                    r0.violation('C18/marshal-o/accepts-invalid',
+                                 'marshal("o", [%r]) succeeded' % s,
+                                 {'kind': 'aftermath'}, size=len(s))
+                except Exception:
+                    pass
+        for k, c in r0.counts.items():
+            if k != 'violating_cases':
+                res.count(k, c)
+        for sig, v in r0.violations.items():
+            res.violation(sig.replace('C18/', 'C18/after-failure/', 1),
+                          'after %s: %s' % (tag, v['what']),
+                          {'kind': 'aftermath'}, size=v['size'])
+    probe('nothing')
+    for name, op in _failing_operations():
+        res.count('states')
+        res.count('transitions')
+        res.count('nontrivial')
+        try:
+            op()
+        except Exception:
+            pass
+        probe(name)
+    return res
+
+
 def run(ctx):
     alphabet = ALPHABET_Q if ctx.quick else ALPHABET_T
     L = 6
@@ -360,7 +463,11 @@ def run(ctx):
         'length <= %d (and a list of special names) in each of the 11 '
         'name-carrying constructor slots, the wire content re-read by the '
         'reference parser (valid names also as instances of a str subclass '
-        'whose str() differs from its content). state = distinct string, transition = one '
+        'whose str() differs from its content). Aftermath: after each of '
+        '11 operations that fail and are reported (signals with wrong '
+        'arguments, None assigned to a notifying property, unencodable '
+        'calls, refused constructions, failed marshal / unmarshal) a list of '
+        'names is judged as before. state = distinct string, transition = one '
         'validator/constructor call. non-trivial = string accepted by at '
         'least one grammar. Also every string of length <= %d over that '
         'alphabet extended with %r (case-folding letters, a non-ASCII digit, '
@@ -382,6 +489,7 @@ def run(ctx):
             + [(alphabet, '', 1)]
             + [(ext, ch, 3) for ch in SPECIALS])
     ctx.map(_task_slots_special, [0])
+    ctx.map(_task_aftermath, [0])
     n = sum(len(alphabet) ** i for i in range(L + 1))
     ctx.part('validators', strings=n, complete=True)
 
@@ -389,6 +497,9 @@ def run(ctx):
 def replay(data):
     from txdbus.error import MarshallingError
     res = core.Result()
+    if data['kind'] == 'aftermath':
+        res = _task_aftermath(0)
+        return [(s, v['what']) for s, v in res.violations.items()]
     if data['kind'] == 'validator':
         _check_string(res, data['string'], _validators(), MarshallingError)
     else:
